@@ -11978,6 +11978,8 @@ tmcg_openpgp_byte_t CallasDonnerhackeFinneyShawThayerRFC4880::PacketDecodeTag57
 	else if (out.pkalgo == TMCG_OPENPGP_PKALGO_ECDH)
 	{
 		// Algorithm-Specific Fields for ECDH keys [RFC 6637]
+		if (pkt.size() <= pkt_offset)
+			return 0; // error: no OID length
 		out.curveoidlen = (tmcg_openpgp_pkalgo_t)pkt[pkt_offset];
 		if ((out.curveoidlen == 0) || (out.curveoidlen == 255))
 			return 0; // error: values reserved for future extensions
@@ -12007,6 +12009,8 @@ tmcg_openpgp_byte_t CallasDonnerhackeFinneyShawThayerRFC4880::PacketDecodeTag57
 	{
 		// Algorithm-Specific Fields for ECDSA keys [RFC 6637]
 		// Algorithm-Specific Fields for EdDSA keys [draft RFC 4880bis]
+		if (pkt.size() <= pkt_offset)
+			return 0; // error: no OID length
 		out.curveoidlen = (tmcg_openpgp_pkalgo_t)pkt[pkt_offset];
 		if ((out.curveoidlen == 0) || (out.curveoidlen == 255))
 			return 0; // error: values reserved for future extensions
@@ -12277,6 +12281,8 @@ tmcg_openpgp_byte_t CallasDonnerhackeFinneyShawThayerRFC4880::PacketDecodeTag57
 	{
 		if (out.s2kconv == 255)
 			return 0; // error: forbidden by spec (RFC4880bis)
+		if (mpis.size() < 1)
+			return 0; // error: no v5 octet count
 		mpis.erase(mpis.begin(), mpis.begin()+1); // skip octet count
 	}
 	if (out.s2kconv == 0)
@@ -12519,6 +12525,8 @@ tmcg_openpgp_byte_t CallasDonnerhackeFinneyShawThayerRFC4880::PacketDecodeTag614
 	else if (out.pkalgo == TMCG_OPENPGP_PKALGO_ECDH)
 	{
 		// Algorithm-Specific Fields for ECDH keys [RFC 6637]
+		if (pkt.size() <= pkt_offset)
+			return 0; // error: no OID length
 		out.curveoidlen = (tmcg_openpgp_pkalgo_t)pkt[pkt_offset];
 		if ((out.curveoidlen == 0) || (out.curveoidlen == 255))
 			return 0; // error: values reserved for future extensions
@@ -12547,6 +12555,8 @@ tmcg_openpgp_byte_t CallasDonnerhackeFinneyShawThayerRFC4880::PacketDecodeTag614
 	{
 		// Algorithm-Specific Fields for ECDSA keys [RFC 6637]
 		// Algorithm-Specific Fields for EdDSA keys [draft RFC 4880bis]
+		if (pkt.size() <= pkt_offset)
+			return 0; // error: no OID length
 		out.curveoidlen = (tmcg_openpgp_pkalgo_t)pkt[pkt_offset];
 		if ((out.curveoidlen == 0) || (out.curveoidlen == 255))
 			return 0; // error: values reserved for future extensions
